@@ -1413,6 +1413,27 @@ Proof.
     + intros E Hph. eapply Fin; eauto. destruct Hph as [->| ->]; discriminate.
 Qed.
 
+(* the flow derivation of a pull (Node.run_data_tree), refused because of cyclic data or because the data tree
+   is not a set of siblings: every broken run / ran connection is restored and no label, child, value or link is
+   touched -- in a graph whose run / ran wiring (of the data tree) is made of single connections *)
+Lemma pull_derive_atomic W st target order st' e ph :
+  singles (cn st) (flow_chans W (arrange order (data_tree W (cn st) target))) ->
+  pull_derive W st target order = (st', WErr e ph) -> ph = WGraph -> same_graph st st'.
+Proof.
+  intros HSg. unfold pull_derive.
+  destruct (cyclic_up W (cn st) target); [intros E _; inversion E; subst; apply same_graph_refl|].
+  set (tree := arrange order (data_tree W (cn st) target)) in *.
+  destruct (disc_phase W (cn st) tree) as [s1 pairs] eqn:D. rewrite disc_phase_flat in D.
+  assert (SP0 : single_pairs (cn st) []) by (split; [constructor|intros c t []]).
+  destruct (dal_singles (cn st) _ [] (cn st) s1 pairs HSg SP0 (fun x => eq_refl) D) as [SP Hs1].
+  simpl in SP, Hs1.
+  destruct (same_parents st tree); [discriminate|].
+  destruct (restore W s1 (fc st) pairs) as [[s2 k2] [|e2]] eqn:R.
+  - intros E _. inversion E; subst. unfold same_graph. simpl. split; [|repeat split; apply same_refl].
+    apply same_sym. eapply restore_singles; eauto.
+  - intros E Hph. inversion E; subst. discriminate.
+Qed.
+
 (* ---- what a successful copy transfers, and in which order ------------------------------------------ *)
 Section Transfers.
 Variable W : world.
